@@ -543,17 +543,67 @@ theorem axes_sorted (env : Env) (hdn : env.docNodeFirst = true) (t : Tree) (d : 
   · left
     exact ⟨rfl, ⟨⟨by simp, List.Pairwise.nil⟩, Or.inl hdn⟩⟩
 
-/-- … so every location path over the modelled axes, on every tree, from every context node, delivers a
-duplicate-free node-set in document order, flagged document order. -/
+/-- a step of a location path: an axis and its predicates.  `XPath::predicates` nulls the entries that fail and
+calls `clearNulls`, so whatever the predicates are (position-dependent ones included) they keep a sub-list of the axis
+result, in the order found: `sel` with `Valid`. -/
+structure StepSpec where
+  axis : Axis
+  sel : List Path → List Path
+
+def StepSpec.Valid (s : StepSpec) : Prop := ∀ l, (s.sel l).Sublist l
+
+def treeStep (t : Tree) (d : Nat) (s : StepSpec) (ctx : NodeRef) : NList :=
+  if h : ctx.idx < t.paths.length then
+    ⟨toRefs t d (s.sel (findAxis t s.axis t.paths[ctx.idx]).1),
+     if (findAxis t s.axis t.paths[ctx.idx]).2 then .reverse else .document⟩
+  else ⟨[], .document⟩
+
+/-- **All 13 axes with arbitrary predicates deliver what `locationPath_sortedSet` assumes.**  child, attribute,
+parent, self, following-sibling (forward) and ancestor, ancestor-or-self, preceding-sibling (reverse) are modelled as
+the pointer walks of XPath.cpp; descendant, descendant-or-self, following, namespace (forward) and preceding (reverse)
+by their definition in the Recommendation as a selection from the document-order walk. -/
+theorem steps_sorted (env : Env) (hdn : env.docNodeFirst = true) (t : Tree) (d : Nat) (s : StepSpec) (hv : s.Valid)
+    (ctx : NodeRef) : AxisResult env d (treeStep t d s ctx) := by
+  unfold treeStep
+  split
+  · rename_i h
+    have hs := findAxis_sorted t s.axis t.paths[ctx.idx] (List.getElem_mem h)
+    have hsub := hv (findAxis t s.axis t.paths[ctx.idx]).1
+    unfold axisSorted at hs
+    by_cases hr : (findAxis t s.axis t.paths[ctx.idx]).2 = true
+    · right
+      simp only [hr, if_true] at hs ⊢
+      refine ⟨trivial, ⟨?_, Or.inl hdn⟩⟩
+      have : (toRefs t d (s.sel (findAxis t s.axis t.paths[ctx.idx]).1)).reverse =
+          toRefs t d (s.sel (findAxis t s.axis t.paths[ctx.idx]).1).reverse := by simp [toRefs]
+      rw [this]
+      exact toRefs_sorted t d _ (fun p hp => hs.1 p (hsub.subset (by simpa using hp))) (hs.2.sublist hsub.reverse)
+    · left
+      simp only [hr, Bool.false_eq_true, if_false] at hs ⊢
+      exact ⟨trivial, ⟨toRefs_sorted t d _ (fun p hp => hs.1 p (hsub.subset hp)) (hs.2.sublist hsub), Or.inl hdn⟩⟩
+  · left
+    exact ⟨rfl, ⟨⟨by simp, List.Pairwise.nil⟩, Or.inl hdn⟩⟩
+
+/-- … so every location path — any non-empty sequence of steps over the 13 axes with any predicates — on every
+tree, from every context node, delivers a duplicate-free node-set in document order, flagged document order. -/
 theorem treeLocationPath_sortedSet (env : Env) (hdn : env.docNodeFirst = true) (t : Tree) (d : Nat)
-    (ha : AfterIsIndex env d) (steps : List Axis) (ctx : NodeRef) (hs : steps ≠ []) (hc : ctx.doc = d) :
-    (evalPath env (treeAxis t d) steps ctx).order = .document ∧
-      DocOrderedSet d (evalPath env (treeAxis t d) steps ctx).nodes := by
-  have := locationPath_sortedSet env d ha (treeAxis t d) (fun s c _ => axes_sorted env hdn t d s c) steps ctx hs hc
+    (ha : AfterIsIndex env d) (steps : List { s : StepSpec // s.Valid }) (ctx : NodeRef) (hs : steps ≠ [])
+    (hc : ctx.doc = d) :
+    (evalPath env (fun s c => treeStep t d s.1 c) steps ctx).order = .document ∧
+      DocOrderedSet d (evalPath env (fun s c => treeStep t d s.1 c) steps ctx).nodes := by
+  have := locationPath_sortedSet env d ha (fun (s : { s : StepSpec // s.Valid }) c => treeStep t d s.1 c)
+    (fun s c _ => steps_sorted env hdn t d s.1 s.2 c) steps ctx hs hc
   exact ⟨this.1, this.2.1⟩
 
 example : (evalPath { indexedEnv with docNodeFirst := true } (treeAxis sampleTree 0)
     [Axis.child, Axis.child, Axis.ancestor] ⟨0, 0⟩).nodes = [⟨0, 0⟩, ⟨0, 2⟩] := by decide
+
+example : (⟨Axis.descendant, fun l => l.drop 1⟩ : StepSpec).Valid := fun l => List.drop_sublist 1 l
+
+example : (evalPath { indexedEnv with docNodeFirst := true }
+    (fun (s : StepSpec) c => treeStep sampleTree 0 s c)
+    [⟨Axis.descendantOrSelf, id⟩, ⟨Axis.child, fun l => l.drop 1⟩, ⟨Axis.preceding, id⟩] ⟨0, 0⟩).nodes =
+      [⟨0, 1⟩, ⟨0, 2⟩, ⟨0, 5⟩, ⟨0, 6⟩, ⟨0, 8⟩, ⟨0, 9⟩] := by decide
 
 /-- with `proposed/C12-docnode-first.diff` the document node takes its place at the front (and
 `addNodeInDocOrder_sortedSet` covers it: `Insertable` then holds for the document node too) -/
